@@ -131,7 +131,7 @@ pub fn gen_ids(rng: &mut Rng, n: usize, small: bool, reserved: &[u32]) -> Vec<u3
     while out.len() < n {
         let cand = match style {
             0 => rng.range(1, (n as u64 + 3) * 2) as u32,
-            1 => rng.range(1, 400) as u32,
+            1 => rng.range(1, 400.max(4 * n as u64)) as u32, // (a range that always holds n distinct ids)
             2 => rng.range(1, 9_999_999) as u32,
             _ => {
                 if rng.chance(1, 6) {
